@@ -65,12 +65,39 @@ def spec_pairs(rows, dsq, ms, md):
     return out
 
 
+def skew_sites(rng):
+    """a skewed cell and a site set containing a pair whose nearest image is NOT the per-axis rounded one;
+    returns (name, lattice, sites, cut-off between the true and the naive distance)"""
+    from pymatgen.core import Lattice as _L
+    for _ in range(200):
+        name = str(rng.choice(['skew', 'hexlike', 'tric2']))
+        lat = np.array(gem.LATTICES[name], float)
+        ns = int(rng.integers(3, 7))
+        grid = rng.permutation(512)[:ns]
+        sc = np.array([[(g // 64) / 8, ((g // 8) % 8) / 8, (g % 8) / 8] for g in grid])
+        true = _L(lat).get_all_distances(sc, sc)
+        d = sc[:, None, :] - sc[None, :, :]
+        naive = np.linalg.norm((d - np.round(d)) @ lat, axis=-1)
+        gap = naive - true
+        if gap.max() > 0.3:
+            i, j = np.unravel_index(np.argmax(gap), gap.shape)
+            md = float(np.round((true[i, j] + naive[i, j]) / 2 * 8) / 8)
+            if true[i, j] + 0.05 < md < naive[i, j] - 0.05:
+                return name + '+naive-image-differs', lat, sc, md, (int(i), int(j))
+    return None
+
+
 def gen_case(rng, big=False):
-    name, lat = gem.lattice_pool(rng)
-    ns = int(rng.integers(3, 8))
-    # sites on a k/8 grid, distinct
-    grid = rng.permutation(512)[:ns]
-    site_coords = np.array([[(g // 64) / 8, ((g // 8) % 8) / 8, (g % 8) / 8] for g in grid])
+    sk = skew_sites(rng) if rng.random() < 0.25 else None
+    if sk is not None:
+        name, lat, site_coords, md_sk, pair = sk
+        ns = len(site_coords)
+    else:
+        name, lat = gem.lattice_pool(rng)
+        ns = int(rng.integers(3, 8))
+        # sites on a k/8 grid, distinct
+        grid = rng.permutation(512)[:ns]
+        site_coords = np.array([[(g // 64) / 8, ((g // 8) % 8) / 8, (g % 8) / 8] for g in grid])
     n = int(rng.integers(2, 15 if big else 11))
     rows = set()
     horizon = int(rng.integers(6, 40))
@@ -84,6 +111,12 @@ def gen_case(rng, big=False):
     rng.shuffle(rows)
     ms = int(rng.integers(0, 6))
     md = float(rng.choice([0.5, 1.0, 2.0, 3.0, 4.5, 6.0]))
+    if sk is not None:
+        md = md_sk
+        others = [k for k in range(ns) if k not in pair] or [pair[0]]
+        # two overlapping jumps of different atoms that touch the critical site pair
+        rows[0] = [0, pair[0], int(rng.choice(others)), 3, 5]
+        rows[1] = [1, int(rng.choice(others)), pair[1], 4, 6]
     return {'lattice_name': name, 'lattice': lat.tolist(), 'sites': site_coords.tolist(), 'rows': rows, 'ms': ms, 'md': md}
 
 
